@@ -110,6 +110,9 @@ type c20Target struct {
 	// what counts.  SlowRetryMs: the probes after the first take that long (several retry intervals)
 	RetryAfter  bool `json:"retryAfter,omitempty"`
 	SlowRetryMs int  `json:"slowRetryMs,omitempty"`
+	// FailCode: a failing probe is answered with this status (401 / 403: an auth proxy in front of the exporter that has
+	// not seen the role binding yet; 404; 500) and a short text body
+	FailCode int `json:"failCode,omitempty"`
 	// CType: Content-Type of the target's answers: "" = text/plain, "none" = no header, otherwise as given
 	CType string `json:"ctype,omitempty"`
 	// Exemplars: an OpenMetrics answer ends with that many samples that carry an exemplar, alternately without and
@@ -203,6 +206,9 @@ func (f *farm) RoundTrip(r *http.Request) (*http.Response, error) {
 			code = 429
 		}
 		return &http.Response{StatusCode: code, Status: fmt.Sprintf("%d busy", code), Body: ioutil.NopCloser(strings.NewReader("busy")), Header: http.Header{"Retry-After": []string{"120"}, "Content-Type": []string{"text/plain"}}, Request: r}, nil
+	}
+	if !ok && sp != nil && sp.FailCode != 0 {
+		return &http.Response{StatusCode: sp.FailCode, Status: fmt.Sprintf("%d %s", sp.FailCode, http.StatusText(sp.FailCode)), Body: ioutil.NopCloser(strings.NewReader(http.StatusText(sp.FailCode) + "\n")), Header: http.Header{"Content-Type": []string{"text/plain; charset=utf-8"}}, Request: r}, nil
 	}
 	if !ok && sp != nil && sp.BreakBody {
 		var b bytes.Buffer
@@ -607,6 +613,11 @@ func runC20(rec *vkit.Recorder, c *c20Case) []vkit.Violation {
 		cls = append(cls, "job-client-broken-for-a-while")
 	}
 	for i := range c.Targets {
+		if c.Targets[i].FailCode != 0 && c.Targets[i].FailFirst != 0 {
+			cls = append(cls, fmt.Sprintf("failing-probe-answered-%d", c.Targets[i].FailCode))
+		}
+	}
+	for i := range c.Targets {
 		if c.Targets[i].FailFirst > 60 {
 			cls = append(cls, "answers-after-more-than-60-failed-probes")
 			break
@@ -639,6 +650,8 @@ func genC20(t *rapid.T) *c20Case {
 			c.Targets[i].RetryAfter, c.Targets[i].BreakBody = true, false
 		case 1:
 			c.Targets[i].SlowRetryMs = 70 // three and a half retry intervals
+		case 2, 3:
+			c.Targets[i].FailCode, c.Targets[i].BreakBody = rapid.SampledFrom([]int{401, 403, 404, 500}).Draw(t, l+"-failCode"), false
 		}
 		if rapid.IntRange(0, 3).Draw(t, l+"-openmetrics") == 0 {
 			c.Targets[i].CType = "application/openmetrics-text; version=1.0.0; charset=utf-8"
